@@ -7,7 +7,7 @@
    Part B: sequential scripts for the correspondence with the real semaphore under synctest.
    Server.Stop / GracefulStop ordering (the first two sentences of C25) is NOT modelled.
    No proofs in this file. *)
-From Coq Require Import List ZArith Bool.
+From Coq Require Import List ZArith Bool Permutation.
 From VLib Require Import Codec Machine.
 Import ListNotations.
 Open Scope Z_scope.
@@ -242,10 +242,11 @@ Fixpoint srv_run (s : sv) (ops : list word) : list word :=
    transport goes serving -> first GOAWAY sent (still accepting) -> second GOAWAY (refusing
    new streams) -> closed (no active stream left while draining, or closed by Stop).
    RPCs: arrival (accepted: handlersWG.Add, handler started / refused), handler return with a
-   status, delivery of that status to the client (the stream stays active until then). *)
+   status, delivery of that status to the client (the stream stays active until then),
+   cancellation by the client. *)
 Inductive conn := CServing | CGoAway1 | CDraining | CClosed.
 Inductive hst := HNone | HRunning | HRet (st : Z).
-Inductive cli := CNone | CHandler (st : Z) | CErr | CRefused.
+Inductive cli := CNone | CHandler (st : Z) | CErr | CCancelled.   (* CErr: refused / connection error *)
 Record srpc := mkr { hs : hst; cxl : bool; clst : cli; act : bool; late : bool }.
 Inductive spc := P0 (g : bool) | P1 (g : bool) | P2 (g : bool) | P3 (g : bool) | P4 (g : bool).
 Record gst := mkg { cn : conn; hardc : bool; wfhd : bool; rs : list srpc; stops : list spc }.
@@ -253,8 +254,7 @@ Record gst := mkg { cn : conn; hardc : bool; wfhd : bool; rs : list srpc; stops 
 Definition arrive (c : conn) : srpc :=
   match c with
   | CServing | CGoAway1 => mkr HRunning false CNone true false
-  | CDraining => mkr HNone false CRefused false true
-  | CClosed => mkr HNone false CErr false true
+  | CDraining | CClosed => mkr HNone false CErr false true
   end.
 (* Stop closes the transport: contexts cancelled, clients of unfinished streams get an error *)
 Definition kill (r : srpc) : srpc :=
@@ -274,9 +274,13 @@ Inductive gstep : gst -> gst -> Prop :=
 | d_drain : forall s p1 p2, stops s = p1 ++ P1 true :: p2 ->
     gstep s (mkg (match cn s with CServing => CGoAway1 | c => c end) (hardc s) (wfhd s) (rs s) (p1 ++ P2 true :: p2))
 | d_close : forall s p1 p2, stops s = p1 ++ P1 false :: p2 ->
-    gstep s (if match cn s with CClosed => true | _ => false end
-             then mkg (cn s) (hardc s) (wfhd s) (rs s) (p1 ++ P2 false :: p2)
-             else mkg CClosed true (wfhd s) (map kill (rs s)) (p1 ++ P2 false :: p2))
+    gstep s (mkg CClosed true (wfhd s) (map kill (rs s)) (p1 ++ P2 false :: p2))
+(* the client cancels an RPC whose stream is still active: RST_STREAM, the handler's context
+   is cancelled, the stream leaves activeStreams *)
+| d_ccancel : forall s l1 r l2, rs s = l1 ++ r :: l2 -> act r = true ->
+    gstep s (mkg (cn s) (hardc s) (wfhd s) (l1 ++ mkr (hs r) true CCancelled false (late r) :: l2) (stops s))
+(* the pool of stop() calls is unordered *)
+| d_perm : forall s ps, Permutation (stops s) ps -> gstep s (mkg (cn s) (hardc s) (wfhd s) (rs s) ps)
 | d_goaway2 : forall s, cn s = CGoAway1 -> gstep s (mkg CDraining (hardc s) (wfhd s) (rs s) (stops s))
 | d_drainclose : forall s, cn s = CDraining -> all_inactive (rs s) ->
     gstep s (mkg CClosed (hardc s) (wfhd s) (rs s) (stops s))
@@ -288,6 +292,29 @@ Inductive gstep : gst -> gst -> Prop :=
 Inductive greach : gst -> Prop :=
 | gr_init : forall w, greach (mkg CServing false w [] [])
 | gr_step : forall s s', greach s -> gstep s s' -> greach s'.
+
+(* ================= Part E: from the sequential model (C) to the interleaving model (D) ====== *)
+(* the state of the sequential model after a script, and its image in the interleaving model:
+   [dn] = the stop() calls that have returned *)
+Fixpoint srv_state (s : sv) (ops : list word) : sv :=
+  match ops with [] => s | op :: r => srv_state (fst (srv_op s op)) r end.
+Definition srv_init (w : bool) : sv := mksv [] false false false 0 0 w 0 0.
+
+Definition hs_of (r : rp) : hst :=
+  if r_h r =? 0 then HNone else if r_h r =? 1 then HRunning else HRet (r_code r).
+Definition act_of (r : rp) : bool := accepted r && negb (r_cdone r) && negb (r_dead r).
+Definition clst_of (r : rp) : cli :=
+  if negb (accepted r) then CErr
+  else if r_dead r then (if r_dcode r =? 1 then CCancelled else CErr)
+  else if r_cdone r then CHandler (r_code r) else CNone.
+Definition abs_r (r : rp) : srpc := mkr (hs_of r) (r_dead r) (clst_of r) (act_of r) (negb (accepted r)).
+Definition abs_cn (s : sv) : conn := if closed s then CClosed else if gcalled s then CDraining else CServing.
+Definition pG (s : sv) : spc := if closed s then P3 true else P2 true.
+Definition abs_stops (s : sv) (dn : list spc) : list spc :=
+  repeat (pG s) (Z.to_nat (gpend s)) ++ repeat (P3 false) (Z.to_nat (spend s)) ++ dn.
+Definition abs (s : sv) (dn : list spc) : gst :=
+  mkg (abs_cn s) (hard s) (wfh s) (map abs_r (rpcs s)) (abs_stops s dn).
+
 
 (* cfg [0; N] sequential script;  cfg [1; N; streams] goroutine stress, obs [[N; max; streams completed]] *)
 Definition run (cfg : word) (ops : list word) : option (list word) :=
